@@ -35,6 +35,34 @@ def tokens(src):
         if t in ("NULL", "nullptr"):
             t = "nullptr"
         out.append(t)
+    return canonical_for_headers(out)
+
+
+def canonical_for_headers(toks):
+    """`for (T i = a; n > i; ...)` is read as `for (T i = a; i < n; ...)` (likewise `>=`): the loop variable on the left"""
+    out = list(toks)
+    i = 0
+    while i < len(out) - 1:
+        if out[i] == "for" and out[i + 1] == "(":
+            depth, j, semis = 0, i + 1, []
+            while j < len(out):
+                if out[j] == "(":
+                    depth += 1
+                elif out[j] == ")":
+                    depth -= 1
+                    if depth == 0:
+                        break
+                elif out[j] == ";" and depth == 1:
+                    semis.append(j)
+                j += 1
+            if len(semis) == 2:
+                init = out[i + 2:semis[0]]
+                cond = out[semis[0] + 1:semis[1]]
+                var = init[init.index("=") - 1] if "=" in init and init.index("=") > 0 else None
+                if var and len(cond) >= 3 and cond[-1] == var and cond[-2] in (">", ">=") and \
+                        not any(t in ("&&", "||", "<", "<=", ">", ">=", "==", "!=") for t in cond[:-2]):
+                    out[semis[0] + 1:semis[1]] = [var, "<" if cond[-2] == ">" else "<="] + cond[:-2]
+        i += 1
     return out
 
 
